@@ -1,6 +1,7 @@
 """C02 - a crash at any instant recovers to a prefix of the committed transactions.
 Decided: the mechanism 'tables change only by applying whole, validated, in-sequence WAL records,
 idempotently, and replay completes before service'."""
+import re
 import core, lib
 from core import call_matches, op_place, op_local, backward_slice
 from props import shared
@@ -149,6 +150,25 @@ def absent_only_if_not_found(ctx, p):
                                'open_existing answers "no such table" only on the NotFound outcome of opening the file (an existing file of any length is opened)',
                                kinds == {'NotFound'}, 'Ok(None) returned %s' % ('on error kinds %s' % sorted(kinds) if kinds else 'without looking at the error kind of File::open'), b.loc(bi))
     ctx.ob(p + 'b absent-sites', 'anchor', '-', 'both open_existing functions have an Ok(None) exit', n >= 2, 'found %d' % n)
+    # ... and an existing file is brought to its full size, whatever length it has: creation is two file operations (create, then
+    # set_len); a file left between them is completed at the next open, not rejected
+    for fn in ('index::IndexTable::open_existing', 'ref_count::RefCountTable::open_existing'):
+        b = ctx.body(fn)
+        if not b:
+            continue
+        sl = lib.sites_reaching(b, ['std::fs::File::set_len'])
+        somes = [bi for bi in b.normal_blocks() for st in b.blocks[bi]['s'] if st['k'] == 'assign' and st['r']['k'] == 'agg' and st['r']['ak'] == 'Adt:std::option::Option::Some']
+        w = b.find_path([0], set(somes), removed=set(sl)) if sl and somes else ['?']
+        ctx.ob(p + 'c existing-file-sized-at-open %s' % fn, 'K1-must-pass', fn, 'every path that reports the table as present has set the file to the full table size (a file left between create and set_len is completed)',
+               w is None, 'no set_len on the way to Ok(Some(table))' if not sl else ('' if w is None else lib.short_path(b, w)))
+        lens = []
+        for bi in b.normal_blocks():
+            for st in b.blocks[bi]['s']:
+                if st['k'] == 'assign' and st['r']['k'] == 'bin' and st['r']['op'] in ('Eq', 'Ne', 'Lt', 'Le', 'Gt', 'Ge'):
+                    pls = [op_place(a) for a in st['r']['a'] if op_place(a) is not None]
+                    if pls and any(re.search(r'Metadata::len$|File::metadata$', c) for pl in pls for c in backward_slice(b, [pl]).calls):
+                        lens.append(b.loc(bi))
+        ctx.ob(p + 'd file-length-not-a-verdict %s' % fn, 'K3-guard', fn, 'open_existing does not compare the length of the file it found with anything (any length is a legal leftover of an interrupted creation)', not lens, 'length compared at %s' % lens)
 
 
 def init_decided_by_content(ctx, p):
